@@ -99,7 +99,7 @@ Definition is_waiting (p : pc) : bool :=
   match p with
   | WGetLoad _ | WGetPay _ _ | WGetSetGen _ | WExit _ | WLoadFull | WHelpRepl _ _ _ _ | WSwap _
   | WDropOld | WCasLoad _ _ _ | WCasPaid _ _ | WCasRetry _ _ _ | WRcuLoad _ _ | WRcuCas _ _ _ _
-  | WRcuInto _ _ | WRcuRet _ | WRcuNext _ _ _ _ | WInto _ | WDropStore _ | WCacheReload _ _ _
+  | WRcuInto _ _ | WRcuRet _ | WRcuPanic | WRcuNext _ _ _ _ | WInto _ | WDropStore _ | WCacheReload _ _ _
   | WThreadExit | KDone _ | KCacheDone _ _ => true
   | _ => false
   end.
